@@ -5,7 +5,7 @@
    the translator read from hilbert_curve.rs / z_curve.rs (Gen/SfcGen.v). *)
 From Coupe Require Import Lib.Prelude Lib.SFloat Lib.Sorting Model.SfcPart Model.ZGeom Proofs.ZGeomProofs
   Proofs.SortingProofs Proofs.SfcProofs Proofs.ZCurveProofs Proofs.ZCheckProofs Proofs.ZOracleProofs Proofs.WqTermProofs Gen.SfcGen
-  Lib.Rayon Model.SfcSched Proofs.SfcSchedProofs Proofs.F64AddExact Proofs.SfcSchedExact.
+  Lib.Rayon Model.SfcSched Proofs.SfcSchedProofs Proofs.F64AddExact Proofs.SfcSchedExact Proofs.WqNonTermination.
 From Coq Require Import Floats.SpecFloat Sorting.Permutation Sorting.Sorted.
 Open Scope nat_scope.
 
@@ -92,11 +92,37 @@ Theorem C09_hilbert_no_panic : forall tol maxo order fuel idx ws k p0,
 Proof. exact hilbert_partition_no_panic. Qed.
 Print Assumptions C09_hilbert_no_panic.
 
+(* REFUTED: the quantile search does NOT terminate for every input in the
+   contract.  Witness: curve indices 0, 4, 8, every weight 1e-16 (finite,
+   positive), 5 parts: the model is out of fuel for EVERY amount of fuel (the
+   loop state alternates between two states from the third round on).  Cause:
+   `approx::abs_diff_eq!` compares partial sums with the ABSOLUTE tolerance
+   f64::EPSILON, so with a total weight of that magnitude every sum "equals"
+   every target.  Confirmed on the real code (docs/C09.md); this is a finding
+   for C01's "no hang" clause, known-finding class hilbert-tiny-weights-hang. *)
+Theorem C09_quantiles_terminate_refuted :
+  exists (pts : list N) (ws : list spec_float) (n : nat),
+    pts <> [] /\ 3 <= n /\ Forall (fun w => is_finite w = true /\ flt fzero w = true) ws
+    /\ length ws = length pts
+    /\ forall fuel, weighted_quantiles (f64_of_bits hilbert_split_tolerance_bits) fuel pts ws n = OutOfFuel.
+Proof.
+  exists wit_idx, wit_ws, wit_n.
+  split; [discriminate|]. split; [repeat constructor|].
+  split; [repeat constructor; vm_compute; reflexivity|]. split; [reflexivity|].
+  exact weighted_quantiles_nontermination.
+Qed.
+Print Assumptions C09_quantiles_terminate_refuted.
+Theorem C09_hilbert_partition_hangs : forall order fuel p0,
+  (order <= hilbert_max_order_2d)%N -> p0 <> [] ->
+  hilbert_impl_2d order fuel [0; 4; 8]%N (repeat (f64_of_bits 4367597403136100796%N) 3) 5 p0 = OutOfFuel.
+Proof. exact (hilbert_partition_nontermination hilbert_max_order_2d). Qed.
+Print Assumptions C09_hilbert_partition_hangs.
+
 (* PARTIAL: termination of the quantile search is proved for part_count <= 2
    only (a single split is a plain bisection; 66 rounds suffice for u64
-   indices).  For part_count >= 3 termination is an OPEN obligation: a split's
-   bounds are also reset from the other splits' positions, which need not be
-   sorted, and no decreasing measure is known (DESIGN §7 C01). *)
+   indices).  For part_count >= 3 termination is FALSE in general
+   (C09_quantiles_terminate_refuted above); whether it holds for weights of
+   ordinary magnitude is open. *)
 Theorem C09_quantiles_terminate_partial : forall tol fuel pts ws n,
   pts <> [] -> Forall (fun x => (x < 2 ^ 64)%N) pts -> 1 <= n <= 2 -> 66 <= fuel ->
   exists splits, weighted_quantiles tol fuel pts ws n = Ok splits.
